@@ -7,10 +7,11 @@
 // except according to those terms.
 
 use crate::commands::ExtractorCmd;
-use crate::{utils, Metainfo};
+use crate::{utils, Error, Metainfo};
 use std::fs;
 use std::fs::File;
 use std::io::{BufReader, BufWriter, Read, Seek, Write};
+use std::path::{Component, Path};
 use tokio::sync::mpsc;
 
 pub struct Extractor {
@@ -35,8 +36,22 @@ impl Extractor {
             .expect("Can't communicate to manager")
     }
 
+    /// Path is relative and has no parent-directory components (so it can't leave the directory
+    /// it is joined to).
+    fn is_confined(path: &Path) -> bool {
+        path.components().all(|component| match component {
+            Component::Normal(_) | Component::CurDir => true,
+            _ => false,
+        })
+    }
+
     fn extract_files(&self) -> Result<(), Box<dyn std::error::Error>> {
         for (path, start, end) in self.metainfo.file_piece_ranges().iter() {
+            // Names from the torrent must stay inside the download directory
+            if !Self::is_confined(path) {
+                return Err(Error::FileCannotWrite.into());
+            }
+
             // Create directories if needed
             if let Some(parent) = path.parent() {
                 fs::create_dir_all(parent)?;
